@@ -125,7 +125,8 @@ impl Peers {
                 forall|i: int| 0 <= i < r.1@.len() ==> authentic_hash(self.s_interval() as int * r.0 as int + 1 + i, (#[trigger] r.1@[i])@) { unimplemented!() }
     #[verifier::external_body]
     pub fn get_latest_block_filter_hashes(&self, finalized_check_point_index: u32) -> (r: Vec<Byte32>)
-        // agreed on by the required number of proven peers (C07 mechanism; unverified)
+        // agreed on by the required number of proven peers: the real function is under contract in unit quorum (postcondition
+        // quorum_agrees); for these positions that agreement is what `authentic_hash` means (C06 statement)
         ensures forall|i: int| 0 <= i < r@.len() ==> authentic_hash(self.s_interval() as int * finalized_check_point_index as int + 1 + i, (#[trigger] r@[i])@) { unimplemented!() }
     #[verifier::external_body]
     pub fn could_request_more_block_filters(&self, finalized_check_point_index: u32, min_filtered_block_number: u64) -> (r: bool) { unimplemented!() }
